@@ -246,7 +246,8 @@ def p_radix_sign(case, rec, exp):
         v = int(m.group(2), BASE[m.group(1).lower()])
     except ValueError:
         return False
-    return _val_of_repr(_obs(rec).get("r", "float:nan")) == float(v)
+    want = abs(float(v)) if case.get("op") == "abs" else float(v)
+    return _val_of_repr(_obs(rec).get("r", "float:nan")) == want
 
 
 def p_nel(case, rec, exp):
@@ -297,7 +298,7 @@ def p_mul_zero_sign(case, rec, exp):
 
 def p_neg_zeros(case, rec, exp):
     """'-00', '-000', ...: strconv.ParseInt gives 0 and only the exact text '-0' is special-cased"""
-    if case.get("kind") != "str" or case.get("op") not in ("number", "plus", "mul1", "sub0"):
+    if case.get("kind") != "str" or case.get("op") not in ("number", "plus", "mul1", "sub0", "negneg"):
         return False
     s = _core_str(case) or ""
     return re.match(r"^-00+$", s) is not None and _obs(rec).get("r") == "int:0"
@@ -344,16 +345,9 @@ def p_parseint_negzero(case, rec, exp):
     return n > 0 and _obs(rec).get("r") == "int:0"
 
 
-PREDICATES = {
-    "C05.parseint_minus_zero_is_plus_zero": p_parseint_negzero,
-    "C05.includes_negative_zero_element_missed": p_includes_negzero,
-    "C05.minus_zero_with_extra_zeros_is_plus_zero": p_neg_zeros,
-    "C05.radix_literal_ge_2p63_is_nan": p_radix_long,
-    "C05.radix_literal_sign_after_prefix_accepted": p_radix_sign,
-    "C05.nel_u0085_trimmed_as_white_space": p_nel,
-    "C05.unicode_string_tofloat_is_nan": p_unicode_tofloat,
-    "C05.int_times_int_zero_result_loses_sign": p_mul_zero_sign,
-}
+# every finding of this property is fixed in /repo: no open finding, no live predicate (the recogniser
+# functions above are kept for the day one of the corpus regressions returns)
+PREDICATES = {}
 
 
 CFG = {
@@ -390,22 +384,27 @@ CFG = {
         "correspondence harness harness/cmd/c05 + /repo/verif_hooks.go (VerifRepr, VerifRawInt, VerifRawFloat)",
     ],
     "assumptions": [
-        "float payloads of the model are well-formed SpecFloat values (wf); validity of SFadd/SFmul/... results is not proved here",
+        "float payloads of the model are well-formed SpecFloat values (wf); validity of SFadd/SFmul/SFdiv/SFsqrt/binary_normalize results is the explicit premise prims_valid of wf_closed_given_prims, not proved here",
+        "x**y is compared exactly where the integer power is representable, within 128 ulps otherwise (Number::exponentiate is implementation-approximated); parseInt values >= 2^63 within 64 ulps",
         "the implementation is tied to the model only on the generated cases (correspondence), not by proof",
         "decimal string->number is compared only where one correctly rounded division suffices (<= 2^53 mantissa, 10^k, k <= 22)",
     ],
     "predicates": PREDICATES,
     "manifest": {
         "text": ("proof: over goja's two Number representations (valueInt/valueFloat) the canonical form is unique per mathematical "
-                 "value (canon_unique), floatToValue always canonicalises and equals the spec-level canonicaliser, SameAs/StrictEquals/"
-                 "SameValueZero/hash agree with the specification on canonical values in both argument orders, every operator and "
-                 "integer conversion of the transcription returns a canonical value on canonical inputs under explicit boolean guards, "
-                 "integer conversions equal ToIntN for |x| < 2^63; the guarded-out regions are exhibited by ..._refuted witnesses "
-                 "(findings F7-F10 and new ones).  The model is tied to /repo on every run by 5000 (quick) / 300000 (thorough) generated "
-                 "operator/conversion/route/pair/string cases whose result bit pattern AND representation tag are compared with the "
-                 "spec layer evaluated by vm_compute."),
-        "note": ("trusted: Coq kernel + vm_compute; stdlib SpecFloat as IEEE semantics; the hand transcription coq/C05/Model.v; the Go "
-                 "harness and verif_hooks.go; the implementation is covered by correspondence on generated cases, not by proof"),
+                 "value (canon_unique); intToValue/floatToValue always canonicalise and equal the spec-level canonicaliser; EVERY "
+                 "operator, Math function and integer conversion of the transcription returns a canonical Number on canonical "
+                 "operands, hence every expression tree does (canon_closed, unguarded since the fixes of F7-F9); SameAs, ===, "
+                 "SameValueZero agree with the specification in both argument orders and the hash respects SameValueZero "
+                 "(hash_respects_svz_num, imported by C18); ToInt8..ToUint32 equal the specification for every input "
+                 "(toIntN_eq_spec, no 2^63 guard since the fix of F10); float64(i) is exact on the safe range (of_Z_exact). 24 "
+                 "theorems, no axioms. Open findings are exhibited by ..._refuted witnesses. The model is tied to /repo on every run "
+                 "by 5000 (quick) / 300000 (thorough) generated operator/conversion/route/pair/string/pow/parseInt/parseFloat cases "
+                 "whose result bit pattern AND representation tag are compared with the spec layer evaluated by vm_compute."),
+        "note": ("trusted: Coq kernel + vm_compute; stdlib SpecFloat as IEEE semantics (validity of its rounded results is an explicit "
+                 "premise of the wf-closure theorem, not proved); the hand transcription coq/C05/Model.v (float comparisons against "
+                 "+-2^63 and math.Mod modelled by their exact mathematical meaning); the Go harness and verif_hooks.go; the "
+                 "implementation is covered by correspondence on generated cases, not by proof"),
         "technique": "Rocq proofs over a two-layer executable model (goja transcription I, ECMAScript S) + differential correspondence against /repo via vm_compute",
     },
 }
